@@ -581,7 +581,7 @@ Theorem model_C20_holds i : inclass_C20 i = true -> C20_holds i (model_C20 i).
 Proof. destruct i as [[A B] f]. unfold inclass_C20. simpl. rewrite andb_true_iff. intros [Hin Hu]. apply inclass_C06_core_wf in Hin. simpl in Hin. destruct Hin as [HA HB].
   apply named_of_no_unnamed in Hu.
   apply wf_nd_schema in HA. apply wf_nd_schema in HB. apply nd_schema_reflect in HA. split; [|split; [|split; [|split]]].
-  4:{ exact (name_calls_okb_refl (calls_f (io_of f) (iname_of f) (fl_attached f) (reflect_sqlite A) B)). }
+  4:{ exact (name_calls_okb_refl (expected_calls f (io_of f) (iname_of f) (reflect_sqlite A) B)). }
   4:{ exact (ops_equiv_refl (diff_f (io_of f) (iname_of f) g20 (reflect_sqlite A) B)). }
   - intros o Ho. apply (diff_f_In _ _ _ _ _ _ Ho).
   - intros o Ho. apply (diff_f_In _ _ _ _ _ _ Ho).
